@@ -53,6 +53,18 @@ def run(ctx):
             r1, _ = guards.root(a1)
             if r0[0] == "param" and r1[0] == "param" and r0[1] != r1[1]:
                 guard_bb = (bb, t, r0, r1)
+        # the same membership test spelled `trail.iter().any(|p| p == instruction)`
+        if c and c.get("name") == "any" and len(t["args"]) == 2 and guard_bb is None:
+            a0 = fn_expr_operand(ei, t["args"][0])
+            a1 = fn_expr_operand(ei, t["args"][1])
+            r0, _ = guards.root(a0)
+            if r0[0] == "param" and a1[0] == "closure":
+                caps = [guards.root(x)[0] for x in a1[2]]
+                caps = [x for x in caps if x[0] == "param" and x[1] != r0[1]]
+                hs = db.by_path.get(a1[1], [])
+                compares = any(c2 and c2.get("name") in ("eq", "ne") for h in hs for b2, t2, c2 in h.calls())
+                if caps and compares:
+                    guard_bb = (bb, t, r0, caps[0])
     key = "K7|breadcrumb-guard"
     ok = False
     detail = {}
